@@ -47,7 +47,9 @@ func (toyCompressor) ID() byte { return 't' }
 // fakeInner is an innermost marshaler that emits the resource's payload verbatim and records what it is asked to decode.
 type fakeInner struct{ got *[]byte }
 
-func (fakeInner) MarshalResource(r resource.Resource) ([]byte, error) { return []byte(payloadOf(r)), nil }
+func (fakeInner) MarshalResource(r resource.Resource) ([]byte, error) {
+	return []byte(payloadOf(r)), nil
+}
 
 func (f fakeInner) UnmarshalResource(b []byte) (resource.Resource, error) { //nolint:ireturn
 	*f.got = append([]byte{}, b...)
@@ -63,6 +65,8 @@ type c18Meta struct {
 	Labels, Annot      map[string]string
 	CreatedNS, UpdNS   int64
 	Payload            string
+	// timestamps never set (a resource built from a manifest without them): the zero time must survive, too
+	ZeroCreated, ZeroUpdated bool
 }
 
 func (m c18Meta) build() *Res {
@@ -99,6 +103,14 @@ func (m c18Meta) build() *Res {
 
 	md.SetCreated(time.Unix(0, m.CreatedNS).UTC())
 	md.SetUpdated(time.Unix(0, m.UpdNS).UTC())
+
+	if m.ZeroCreated {
+		md.SetCreated(time.Time{})
+	}
+
+	if m.ZeroUpdated {
+		md.SetUpdated(time.Time{})
+	}
 
 	return r
 }
@@ -161,6 +173,8 @@ func genC18Meta(r *rng) c18Meta {
 		m.CreatedNS += int64(r.intn(1_000_000_000))
 		m.UpdNS += int64(r.intn(1_000_000_000))
 	}
+
+	m.ZeroCreated, m.ZeroUpdated = r.chance(1, 8), r.chance(1, 8)
 
 	return m
 }
@@ -644,6 +658,46 @@ func TestC18(t *testing.T) {
 
 			if payloadOf(back) != m.Payload {
 				viol("stack:roundtrip-differs", "stack-roundtrip: spec differs")
+			}
+
+			// a resource of a type this process has not registered travels as the generic protobuf.Resource, carrying its
+			// YAML rendering next to the protobuf spec: it must come back from the store unchanged as well
+			mz := m
+			mz.Typ = "Z"
+
+			if pr, err := protobuf.FromResource(mz.build()); err == nil {
+				if msg, err := pr.Marshal(); err == nil {
+					if generic, err := protobuf.Unmarshal(msg); err == nil {
+						render := func(r resource.Resource) string {
+							y, err := resource.MarshalYAML(r)
+							if err != nil {
+								return "error: " + err.Error()
+							}
+
+							b, err := yaml.Marshal(y)
+							if err != nil {
+								return "error: " + err.Error()
+							}
+
+							return string(b)
+						}
+
+						encG, err := st.MarshalResource(generic)
+						if err != nil {
+							viol("stack:encode-error", "stack "+fmt.Sprint(spec.Layers)+" (generic resource): "+err.Error())
+						} else if backG, err := st.UnmarshalResource(encG); err != nil {
+							viol("stack:decode-error", "stack-roundtrip "+fmt.Sprint(spec.Layers)+" (generic resource): own encoding rejected: "+err.Error())
+						} else {
+							if d := mdDiff(generic.Metadata(), backG.Metadata()); d != "" {
+								viol("stack:roundtrip-differs", "stack-roundtrip (generic resource) "+fmt.Sprint(spec.Layers)+": "+d)
+							} else if before, after := render(generic), render(backG); before != after {
+								viol("stack:generic-spec-lost", fmt.Sprintf("stack-roundtrip (generic resource) %v: rendered before the store round trip:\n%s\nafter:\n%s", spec.Layers, before, after))
+							}
+
+							rep.hit("stack_generic_roundtrip")
+						}
+					}
+				}
 			}
 
 			// records are written in batches and read back later: an encoded record must not change when further records
